@@ -36,6 +36,7 @@ func Run(k *report.Check) {
 	k.Rule = "explicit-state search over the real jobs.Job with scripted operator / source-runner nodes, a harness clock and an in-memory store: events = register / deregister / heartbeat of operator i or source runner i (i<WorkerCount+1, so one standby of each kind), clock jump past the heartbeat deadline, checkpoint tick, acknowledgement of the pending checkpoint by a node, a node failing its next Deploy, Deploy calls becoming slow (they stay in flight, so that every other event can strike during deployment) and finishing; the job runs to quiescence after every event. Invariants on every call the job makes: Deploy / StartCheckpoint / AssignSplits only reach nodes that are registered and alive, every Deploy names exactly WorkerCount operators and runners, after a member is lost no further call reaches that assembly, a redeploy hands every operator the latest completed checkpoint. Bounded liveness from every reached state: register enough nodes, tick, acknowledge -> a new checkpoint with a larger id completes. non-trivial = distinct states reached after at least one loss of an assembly member"
 	k.Assumptions = []string{"nodes are scripted (real workers are the cluster parts' subject)", "job goroutines run to quiescence after every event with the default schedule"}
 	k.Budget(120, 1200)
+	k.Parts(k.Pick(2, 3))
 	for _, w := range []int{1, 2}[:k.Pick(2, 2)] {
 		d := k.Pick(4, 7)
 		if w == 2 {
